@@ -12,3 +12,5 @@ import RepidProofs.Props.C13
 import RepidProofs.Props.C16
 import RepidProofs.Props.C09
 import RepidProofs.Props.C10
+import RepidProofs.Props.C03
+import RepidProofs.Props.C07
